@@ -81,6 +81,17 @@ def const_eval(node):
 def run(ctx):
     pkg = ctx.pkg
     ci = pkg.cls("lab", "PPG3204")
+    # canonical spelling first (format() -> f-string, keyword -> positional, index loops -> element loops, ...): see ocv/normalize.py
+    from ..normalize import normalize_function
+    lab = pkg.module("lab")
+    helpers = {}
+    for q, f in lab.funcs.items():
+        normalize_function(f.node)
+        if f.cls is None and f.parent is None and f.name.startswith("_"):
+            helpers[f.name] = f.node
+    for name, m in ci.methods.items():
+        if name.startswith("_") and name not in ("__init__", "__del__", "__call__", "_query", "_check_channels"):
+            helpers[name] = m.node
     consts = {}
     for k, v in ci.class_consts.items():
         c = const_eval(v)
@@ -101,7 +112,7 @@ def run(ctx):
     if cc is None:
         ctx.unknown("C20.1", None, None, "PPG3204._check_channels", "method missing")
         return
-    ii = IntervalInterp(consts)
+    ii = IntervalInterp(consts, functions=helpers)
     ii.run(cc.node)
     if not ii.returns:
         ctx.unknown("C20.1", cc, cc.node, "_check_channels", "no return value")
@@ -119,7 +130,7 @@ def run(ctx):
         if name in ("_query", "__init__", "__del__", "_check_channels"):
             if name != "__init__":
                 continue
-        ii = IntervalInterp(consts, {"_check_channels": chs})
+        ii = IntervalInterp(consts, {"_check_channels": chs}, functions=helpers)
         ii.run(m.node)
         for site in ii.sites:
             n_sites += 1
@@ -189,12 +200,14 @@ def run(ctx):
                     why.append(f"`{n_}` is not the block's size")
                 if defs.get(k_) != f"len(str({n_}))":
                     why.append(f"`{k_}` is not the digit count of the block length")
-                if defs.get(p_) is None:
+                # the address sent: the running address variable itself, or a per-block copy of it
+                addr_var = defs.get(p_) if (defs.get(p_) or "").isidentifier() else (p_ if p_.isidentifier() else None)
+                if addr_var is None:
                     why.append("address variable not set per block")
-                adv = [n for n in ast.walk(loop) if isinstance(n, ast.AugAssign) and isinstance(n.op, ast.Add) and src_of(n.value) == n_ and src_of(n.target) == defs.get(p_, "?")]
+                adv = [n for n in ast.walk(loop) if isinstance(n, ast.AugAssign) and isinstance(n.op, ast.Add) and src_of(n.value) == n_ and src_of(n.target) == (addr_var or "?")]
                 if not adv:
                     why.append("the address does not advance by the block length")
-                init = [n for n in body_nodes(sd) if isinstance(n, ast.Assign) and src_of(n.targets[0]) == defs.get(p_, "?") and src_of(n.value) == "start_addrs"]
+                init = [n for n in body_nodes(sd) if isinstance(n, ast.Assign) and src_of(n.targets[0]) == (addr_var or "?") and src_of(n.value) == "start_addrs"]
                 if not init:
                     why.append("the address does not start at start_addrs")
                 if "join" not in defs.get(d_, ""):
